@@ -30,7 +30,14 @@ now wrong, if there is one):
     densities move by 1.3e-2 … 1.7e-1 per K (relative), the liquid densities by 2e-4 … 2.5e-2 per K (water near its density
     maximum at 277 K less), so a neighbour 1e-6 K away is 1e-8 (2e-10) off, 3 (1) orders of magnitude above the tolerance; on the
     unchanged tree the replies are bitwise those of a fresh CoolProp state, whatever the type of the temperature), and a sample
-    against the Lean model on a table of the stated temperature and its neighbours.
+    against the Lean model on a table of the stated temperature and its neighbours;
+  * the CALLER'S-ARGUMENT / DTYPE / MAGNITUDE oracle ("every finite value or numpy/pandas array", "scalars and arrays alike"): every
+    converter and every branch (identity, unit-only, mode / basis change, physical <-> fraction / percent, fraction <-> percent and
+    relative <-> relative % per direction, c_unit with both signs, c_temperature) with float64 / float32 / int8 … uint64 arrays and
+    Series (2-D, empty, read-only, non-default / text / repeated row labels), numpy scalars, Python ints of any size, and floats up to
+    the ends of the double (float32) range: reply = exact SI factor x the values passed in (no wrap-around, no overflow of an
+    intermediate), the caller's object unchanged (copy taken before), the reply of a real conversion a new object sharing no memory,
+    the second conversion of the same variable = the first.  Regions where the unchanged tree wraps are kept out (ARG_TODO, reported).
 """
 import itertools
 import math
@@ -1048,6 +1055,267 @@ def run(ck):
             and all(close(x, e) for x, e in zip(s1.values, exp))
         if not okk:
             ck.fail_case({"fn": "L-array", "case": [bf, uf, bt, ut]}, {"array": str(a1), "series": str(s1)})
+
+    # ------------------------------------------------------------------ CALLER'S-ARGUMENT / DTYPE / MAGNITUDE oracle
+    # "every finite value or numpy/pandas array", "for scalars and arrays alike": a conversion is a FUNCTION of its arguments.
+    # Every converter (c_unit, c_pressure, c_loading, c_material, c_temperature) and every branch (identity, unit-only, mode /
+    # basis change, physical <-> fraction / percent, fraction <-> percent and relative <-> relative % per direction) is called with values of every
+    # container and dtype (float64 / float32 / int8 … int64 / uint arrays, 2-D, empty, read-only, Series with non-default,
+    # text and repeated row labels, Python ints of any size, numpy scalars) and magnitudes up to the ends of the dtype's range
+    # (floats within a factor of the largest / smallest normal double).  Clauses per call:
+    #   (a) the reply = the exact SI factor (rationals) times the values that were passed in — whatever the dtype: no wrap-around, no
+    #       overflow of an intermediate when the exact result is finite; container, shape and row labels kept;
+    #   (b) the caller's object is unchanged afterwards (values, dtype, labels; compared with a copy taken before);
+    #   (c) the reply of a conversion between two different representations is a new object that shares no memory with the argument;
+    #   (d) converting the same variable a second time gives the same reply, and the first reply has not changed meanwhile.
+    F64, F32 = np.finfo(np.float64), np.finfo(np.float32)
+    SMALLINT = ("int8", "int16", "int32", "uint8", "uint16", "uint32")
+
+    def arg_pools():
+        P = {}
+
+        def put(branch, kind, args, factor, off=None):
+            P.setdefault(branch, []).append((kind, args, factor, off))
+        for ty, t in TABLES.items():
+            for a, b in itertools.permutations(t, 2):
+                if c_unit is not None:
+                    put("c_unit:sign=1", "U", (ty, a, b, 1), t[a] / t[b])
+                    put("c_unit:sign=-1", "U", (ty, a, b, -1), t[b] / t[a])
+            for a in t:
+                if c_unit is not None:
+                    put("identity", "U", (ty, a, a, rng.choice((1, -1))), Fr(1))
+        for (mf, uf), (mt, ut) in itertools.product(PRESS, PRESS):
+            br = "identity" if (mf, uf) == (mt, ut) else "c_pressure:unit" if mf == mt == "absolute" else \
+                f"c_pressure:{mf}->{mt}" if "absolute" not in (mf, mt) else "c_pressure:mode"
+            put(br, "P", (mf, mt, uf, ut), cx.scale_p(mf, uf) / cx.scale_p(mt, ut))
+        for (bf, uf), (bt, ut) in itertools.product(LOAD, LOAD):
+            ff, ft = bf in ("fraction", "percent"), bt in ("fraction", "percent")
+            br = "identity" if (bf, uf) == (bt, ut) else "c_loading:unit" if bf == bt else \
+                f"c_loading:{bf}->{bt}" if ff and ft else "c_loading:physical<->fraction/percent" if ff or ft else "c_loading:basis"
+            for mb, mu in (MATS if (ff != ft) else [rng.choice(MATS + [(None, None)])]):
+                put(br, "L", (bf, bt, uf, ut, mb, mu), cx.scale_l(bf, uf, mb, mu) / cx.scale_l(bt, ut, mb, mu))
+        for (bf, uf), (bt, ut) in itertools.product(MATS, MATS):
+            br = "identity" if (bf, uf) == (bt, ut) else "c_material:unit" if bf == bt else "c_material:basis"
+            put(br, "M", (bf, bt, uf, ut), cx.grams(bt, ut) / cx.grams(bf, uf))
+        for uf, ut in itertools.product(TEMPS, TEMPS):
+            cf, ct = "c" in uf.lower(), "c" in ut.lower()
+            put("identity" if cf == ct else "c_temperature", "T", (uf, ut), Fr(1), (D("273.15") if cf else 0) - (D("273.15") if ct else 0))
+        return P
+
+    def arg_fn(kind, a):
+        if kind == "U":
+            return (lambda v: c_unit(CODE[a[0]], v, a[1], a[2], a[3])), f"c_unit({CODE_TABLE_NAME[a[0]]}, V, {a[1]!r}, {a[2]!r}, sign={a[3]})"
+        if kind == "P":
+            return (lambda v: c_pressure(v, a[0], a[1], a[2], a[3], stub, 77.0)), \
+                f"c_pressure(V, {a[0]!r}, {a[1]!r}, {a[2]!r}, {a[3]!r}, <pgv_stub p_sat={STUB['saturation_pressure']}>, 77.0)"
+        if kind == "L":
+            return (lambda v: c_loading(v, a[0], a[1], a[2], a[3], stub, 77.0, a[4], a[5])), \
+                f"c_loading(V, {a[0]!r}, {a[1]!r}, {a[2]!r}, {a[3]!r}, <pgv_stub {STUB}>, 77.0, {a[4]!r}, {a[5]!r})"
+        if kind == "M":
+            return (lambda v: c_material(v, a[0], a[1], a[2], a[3], mat)), \
+                f"c_material(V, {a[0]!r}, {a[1]!r}, {a[2]!r}, {a[3]!r}, <Material density=2.3 molar_mass=321.0>)"
+        return (lambda v: c_temperature(v, a[0], a[1])), f"c_temperature(V, {a[0]!r}, {a[1]!r})"
+
+    def rnd_floats(k):
+        return [rng.choice((1, -1)) * 10 ** rng.uniform(-3, 4) for _ in range(k)]
+
+    def rnd_ints(dt, k):
+        ii = np.iinfo(dt)
+        pool_ = [ii.max, ii.min + (1 if ii.min < 0 else 0), ii.max // 2 + 1, 0, 1]
+        return [rng.choice(pool_) if rng.random() < 0.4 else rng.randint(ii.min + (1 if ii.min < 0 else 0), ii.max) for _ in range(k)]
+
+    def hi_floats(factor, top, k):
+        """finite values whose exact product with the factor is finite too, within a factor 100 of the largest number"""
+        m = float(Fr(top) * Fr(9, 10) / max(Fr(1), factor))
+        return [rng.choice((1, -1)) * m * 10 ** -rng.uniform(0, 2) for _ in range(k)]
+
+    def lo_floats(factor, tiny, k):
+        """values whose exact product with the factor is a normal number too, within a factor 100 of the smallest normal number"""
+        m = float(Fr(tiny) * 4 * max(Fr(1), 1 / factor))
+        return [rng.choice((1, -1)) * m * 10 ** rng.uniform(0, 2) for _ in range(k)]
+
+    LABELS = [[4, 9, 2], ["a", "b", "c"], [1, 1, 2], [2, 1, 0], [10, 20, 30]]
+
+    def ser(vals, dtype):
+        lab = rng.choice(LABELS)
+        return pd.Series(np.array(vals, dtype=dtype), index=lab), f"pandas.Series(numpy.array({vals!r}, dtype='{dtype}'), index={lab!r})"
+
+    def arr(vals, dtype):
+        return np.array(vals, dtype=dtype), f"numpy.array({vals!r}, dtype='{dtype}')"
+
+    # (name, class, maker(factor, has_offset) -> (value, text)); class decides where the kind is admissible (see ARG_TODO)
+    def _ro(fa):
+        a, t = arr(rnd_floats(3), "float64")
+        a.flags.writeable = False
+        return a, t + " [flags.writeable = False]"
+    ARG_KINDS = [
+        ("ndarray float64", "float", lambda fa: arr(rnd_floats(rng.randint(1, 5)), "float64")),
+        ("ndarray float64 2-D", "float", lambda fa: arr([rnd_floats(3), rnd_floats(3)], "float64")),
+        ("ndarray float64 empty", "float", lambda fa: arr([], "float64")),
+        ("ndarray float64 read-only", "float", _ro),
+        ("Series float64", "float", lambda fa: ser(rnd_floats(3), "float64")),
+        ("ndarray float32", "f32", lambda fa: arr([float(np.float32(x)) for x in rnd_floats(3)], "float32")),
+        ("Series float32", "f32", lambda fa: ser([float(np.float32(x)) for x in rnd_floats(3)], "float32")),
+        ("ndarray int64", "int64", lambda fa: arr([rng.randint(-10 ** 6, 10 ** 6) for _ in range(3)], "int64")),
+        ("Series int64", "int64", lambda fa: ser([rng.randint(-10 ** 6, 10 ** 6) for _ in range(3)], "int64")),
+        ("ndarray int64 full range", "int-extreme", lambda fa: arr(rnd_ints("int64", 3), "int64")),
+        ("ndarray uint64 full range", "int-extreme", lambda fa: arr(rnd_ints("uint64", 3), "uint64")),
+    ] + [("ndarray " + dt, "smallint", (lambda fa, dt=dt: arr(rnd_ints(dt, 3), dt))) for dt in SMALLINT] + [
+        ("Series " + dt, "smallint", (lambda fa, dt=dt: ser(rnd_ints(dt, 3), dt))) for dt in ("int8", "int16", "int32", "uint16")] + [
+        ("numpy integer scalar", "smallint", lambda fa: (lambda dt: (lambda x: (getattr(np, dt)(x), f"numpy.{dt}({x})"))(rnd_ints(dt, 1)[0]))(rng.choice(SMALLINT))),
+        ("numpy.float64 scalar", "float", lambda fa: (lambda x: (np.float64(x), f"numpy.float64({x!r})"))(rnd_floats(1)[0])),
+        ("numpy.float32 scalar", "f32", lambda fa: (lambda x: (np.float32(x), f"numpy.float32({float(np.float32(x))!r})"))(rnd_floats(1)[0])),
+        ("Python int", "pyint", lambda fa: (lambda x: (x, repr(x)))(rng.choice([3, -7, 2 ** 53 + 1, 10 ** 18 + 1, 2 ** 70, -(10 ** 30), rng.randint(-10 ** 9, 10 ** 9)]))),
+        ("Python float", "float", lambda fa: (lambda x: (x, repr(x)))(rnd_floats(1)[0])),
+        ("Python float near the largest double", "extreme", lambda fa: (lambda x: (x, repr(x)))(hi_floats(fa, F64.max, 1)[0])),
+        ("Python float near the smallest normal double", "extreme", lambda fa: (lambda x: (x, repr(x)))(lo_floats(fa, F64.tiny, 1)[0])),
+        ("ndarray float64 near the largest double", "extreme", lambda fa: arr(hi_floats(fa, F64.max, 3), "float64")),
+        ("ndarray float64 near the smallest normal double", "extreme", lambda fa: arr(lo_floats(fa, F64.tiny, 3), "float64")),
+        ("Series float64 near the largest double", "extreme", lambda fa: ser(hi_floats(fa, F64.max, 3), "float64")),
+        ("ndarray float32 near the largest float32", "extreme32",
+         lambda fa: arr([float(np.float32(x)) for x in hi_floats(fa, float(F32.max) * 0.9, 3)], "float32")),
+    ]
+    # TODO(candidate defects of the unchanged tree, reported, kept out of the generator): the paths below multiply the VALUE by an
+    # integer table entry / the integer 100 before anything else (`value * 100`, `value * _LOADING_MODE[b][u] * ...`), so arrays of a
+    # narrow integer dtype wrap around there on the unchanged tree (numpy keeps int8 * 100 in int8), and the multi-step products of the
+    # basis-changing formulas overflow / underflow in an intermediate at the ends of the double range.  Measured on 7c57bba.
+    ARG_TODO = {
+        "c_pressure:relative->relative%": {"smallint", "int-extreme"},     # the other direction (value * 100**-1) is in
+        "c_loading:fraction->percent": {"smallint", "int-extreme"},        # the other direction (value / 100) is in
+        "c_loading:basis": {"smallint", "int-extreme", "extreme", "extreme32"},
+        "c_loading:physical<->fraction/percent": {"smallint", "int-extreme", "extreme", "extreme32"},
+        "c_material:basis": {"extreme", "extreme32"},
+    }
+
+    def exact_vals(v):
+        if isinstance(v, pd.Series):
+            v = v.values
+        if isinstance(v, np.ndarray):
+            return [Fr(int(x)) if v.dtype.kind in "iu" else Fr(float(x)) for x in v.ravel()]
+        if isinstance(v, (int, np.integer)):
+            return [Fr(int(v))]
+        return [Fr(float(v))]
+
+    def snapshot(v):
+        if isinstance(v, pd.Series):
+            return ("series", v.values.copy(), str(v.dtype), list(v.index), v.name)
+        if isinstance(v, np.ndarray):
+            return ("ndarray", v.copy(), str(v.dtype), v.shape)
+        return ("scalar", v, type(v).__name__)
+
+    def still(v, s):
+        try:
+            if s[0] == "series":
+                return isinstance(v, pd.Series) and str(v.dtype) == s[2] and list(v.index) == s[3] and v.name == s[4] and \
+                    v.values.tobytes() == s[1].tobytes()
+            if s[0] == "ndarray":
+                return isinstance(v, np.ndarray) and str(v.dtype) == s[2] and v.shape == s[3] and v.tobytes() == s[1].tobytes()
+            return type(v).__name__ == s[2] and v == s[1]
+        except Exception:  # noqa
+            return False
+
+    def reply_fits(o, v0, exp, rel, off):
+        """outcome `o` for the argument whose snapshot is `v0` = the exact values `exp`, container kept"""
+        if o[0] != "ok":
+            return False
+        val = o[1]
+        try:
+            if v0[0] == "series":
+                if not (isinstance(val, pd.Series) and list(val.index) == v0[3]):
+                    return False
+                got = list(val.values)
+            elif v0[0] == "ndarray":
+                if not (isinstance(val, np.ndarray) and val.shape == v0[3]):
+                    return False
+                got = list(val.ravel())
+            else:
+                if np.ndim(val) != 0:
+                    return False
+                got = [val]
+            if len(got) != len(exp):
+                return False
+            for g, e in zip(got, exp):
+                g = float(g) if not isinstance(g, (int, np.integer)) else int(g)
+                if isinstance(g, float) and not math.isfinite(g):
+                    return False
+                if not (close(g, e, rel=rel) or abs(frac(g) - e) <= Fr(rel) * abs(off)):
+                    return False
+            return True
+        except (TypeError, ValueError, OverflowError):
+            return False
+
+    pools = arg_pools()
+    arg_n = {"cases": 0, "skipped_TODO": 0}
+    for branch in sorted(pools):
+        for kname, kcls, maker in ARG_KINDS:
+            if kcls in ARG_TODO.get(branch, ()):
+                arg_n["skipped_TODO"] += 1
+                continue
+            for _ in range(ck.n(3, 14)):
+                kind, a, factor, off = rng.choice(pools[branch])
+                off = Fr(0) if off is None else Fr(off)
+                f, text = arg_fn(kind, a)
+                try:
+                    v, vtext = maker(factor)
+                except OverflowError:
+                    continue
+                ident = branch == "identity"
+                rel = 2e-6 if kcls in ("f32", "extreme32") else 1e-11
+                snap = snapshot(v)
+                exp = [x * factor + off for x in exact_vals(v)]
+                o1 = call(f, v)
+                unchanged1 = still(v, snap)
+                fits1 = reply_fits(o1, snap, exp, rel, off)      # judged now: the reply may be the caller's object
+                o1v = None
+                if o1[0] == "ok":
+                    try:
+                        o1v = np.array(o1[1].values if isinstance(o1[1], pd.Series) else o1[1], copy=True)
+                    except Exception:  # noqa
+                        o1v = None
+                o2 = call(f, v)
+                unchanged2 = still(v, snap)
+                arg_n["cases"] += 1
+                ck.count(("arg", branch, kname, text), nontrivial=not ident, bucket=f"argument:{branch}:{kname}:" + (o1[0] if o1[0] == "ok" else o1[1]))
+                det = {"call": text, "V": vtext, "exact_SI_factor": str(float(factor)), "first_reply": short(o1)}
+                if off:
+                    det["offset"] = str(float(off))
+                sig0 = {"entry": branch, "value_kind": kname}
+                if not fits1:
+                    groups.add(("arg-value", branch, kcls), dict(sig0, fn="argument-dtype-magnitude"),
+                               dict(det, expected=[float(e) if abs(e) < Fr(F64.max) else str(e) for e in exp][:6],
+                                    what="the reply is not the exact SI factor times the values passed in (this dtype / magnitude)"))
+                    continue
+                if not unchanged1:
+                    groups.add(("arg-mutated", branch), dict(sig0, fn="argument-mutated"),
+                               dict(det, V_after_the_call=str(v.tolist() if hasattr(v, "tolist") else v)[:200],
+                                    what="the caller's object was changed by the conversion"))
+                    continue
+                if not ident and snap[0] != "scalar" and o1[0] == "ok":
+                    shared = o1[1] is v
+                    try:
+                        shared = shared or (snap[1].size > 0 and np.shares_memory(np.asarray(o1[1]), np.asarray(v)))
+                    except Exception:  # noqa
+                        pass
+                    if shared:
+                        groups.add(("arg-alias", branch), dict(sig0, fn="argument-aliased"),
+                                   dict(det, what="the reply of a conversion between two different representations is (or shares memory with) "
+                                                  "the caller's object: changing one changes the other"))
+                        continue
+                if not (reply_fits(o2, snap, exp, rel, off) and unchanged2):
+                    groups.add(("arg-second", branch), dict(sig0, fn="argument-second-call"),
+                               dict(det, second_reply=short(o2), what="converting the same variable a second time gives another reply"))
+                    continue
+                if o1v is not None:
+                    try:
+                        now = np.asarray(o1[1].values if isinstance(o1[1], pd.Series) else o1[1])
+                        if now.tobytes() != o1v.tobytes():
+                            groups.add(("arg-first-changed", branch), dict(sig0, fn="argument-aliased"),
+                                       dict(det, first_reply_now=str(now.tolist())[:200], what="the first reply changed when the same variable was converted again"))
+                    except Exception:  # noqa
+                        pass
+    groups.flush()
+    ck.cov["argument_oracle"] = dict(arg_n, branches=sorted(pools), value_kinds=[k[0] for k in ARG_KINDS],
+                                     kept_out_TODO={k: sorted(v) for k, v in ARG_TODO.items()})
 
     # ------------------------------------------------------------------ EVERY shipped adsorbate with a thermodynamic backend
     # (round 6, C01-m11: a molar mass taken from the database for the mass<->molar leg while the volume legs use the backend's
